@@ -499,4 +499,176 @@ written literal is read back by importing the generated package). -/
 def ReprModel (lits : List String) (v : PyVal) : Prop :=
   lits.contains v.ty = true → v.reprEvaluates = (!(v.ty == "float" && !v.finite))
 
+/-! ## 4. the cache methods of the generated classes (`SpaceTranslator.cache_method_noparam`, `cache_method`)
+
+A cached cells `x` of an exported space is read through a generated method `x(self, ..)` that consults a cache
+before calling the translated formula `_f_x`: for a cells without parameters the pair `_has_x` (a flag, initially
+`False`) / `_v_x` (initially `None`), for a cells with parameters the dict `_v_x` keyed by the arguments.  The
+method's text is a template in exporter.py; `tables.cache_method_tokens` reads it as a program over the cache of
+ONE element (one argument tuple): a test of "has a value", the statements of the two branches, the statements
+after the `if` (`Generated.exportCacheNoParam`, `Generated.exportCacheParam`).  `runCache` executes such a program
+for one read, given what the formula does at that read (`none`: it raises).  A Python exception ends the method
+where it is raised: what was assigned before stays assigned. -/
+
+/-- the statements that occur in a cache method -/
+inductive COp where
+  | evalTmp     -- `<local> = self._f_x(..)`
+  | evalSlot    -- `self._v_x = self._f_x()`
+  | evalBoth    -- `<local> = self._v_x = self._f_x()`
+  | evalItem    -- `self._v_x[key] = self._f_x(..)`   (the dict gets the key only if the call returns)
+  | setHas      -- `self._has_x = True`
+  | clearHas    -- `self._has_x = False`
+  | storeTmp    -- `self._v_x = <local>`
+  | putTmp      -- `self._v_x[key] = <local>`
+  | retSlot     -- `return self._v_x`
+  | retItem     -- `return self._v_x[key]`   (KeyError when the key is absent)
+  | retTmp      -- `return <local>`
+  deriving DecidableEq, Repr
+
+def COp.ofString (s : String) : Option COp :=
+  if s = "evalTmp" then some .evalTmp else if s = "evalSlot" then some .evalSlot
+  else if s = "evalBoth" then some .evalBoth else if s = "evalItem" then some .evalItem
+  else if s = "setHas" then some .setHas else if s = "clearHas" then some .clearHas
+  else if s = "storeTmp" then some .storeTmp else if s = "putTmp" then some .putTmp
+  else if s = "retSlot" then some .retSlot else if s = "retItem" then some .retItem
+  else if s = "retTmp" then some .retTmp else none
+
+/-- `if [not] has: thn  else: els` followed by `aft` -/
+structure CProg where
+  neg : Bool
+  thn : List COp
+  els : List COp
+  aft : List COp
+  deriving DecidableEq, Repr
+
+def opsOf : List String → Option (List COp)
+  | [] => some []
+  | s :: rest => match COp.ofString s, opsOf rest with
+    | some o, some os => some (o :: os)
+    | _, _ => none
+
+/-- the tokens up to the first `sep`, and what follows it -/
+def splitTok (sep : String) : List String → Option (List String × List String)
+  | [] => none
+  | s :: rest => if s = sep then some ([], rest) else
+    match splitTok sep rest with
+    | some (a, b) => some (s :: a, b)
+    | none => none
+
+def CProg.ofTokens : List String → Option CProg
+  | [] => none
+  | t :: rest =>
+    if t = "ifhas" ∨ t = "ifnothas" then
+      match splitTok "else" rest with
+      | none => none
+      | some (a, rest2) =>
+        match splitTok "end" rest2 with
+        | none => none
+        | some (b, c) =>
+          match opsOf a, opsOf b, opsOf c with
+          | some thn, some els, some aft => some { neg := decide (t = "ifnothas"), thn, els, aft }
+          | _, _, _ => none
+    else none
+
+/-- the cache of one element: `slot = none` is Python's `None` (the initial `_v_x`; for a dict: no entry);
+`calls` counts the evaluations of the formula -/
+structure CSt (V : Type) where
+  has : Bool := false
+  slot : Option V := none
+  tmp : Option V := none
+  calls : Nat := 0
+
+/-- how a read ends; `fell`: the statements ran out (a Python function then returns `None`) -/
+inductive CRes (V : Type) where
+  | ret (v : Option V)
+  | raised
+  | fell
+
+def execOps {V : Type} (f : Option V) : List COp → CSt V → CRes V × CSt V
+  | [], s => (.fell, s)
+  | .evalTmp :: r, s =>
+    match f with
+    | none => (.raised, { s with calls := s.calls + 1 })
+    | some v => execOps f r { s with tmp := some v, calls := s.calls + 1 }
+  | .evalSlot :: r, s =>
+    match f with
+    | none => (.raised, { s with calls := s.calls + 1 })
+    | some v => execOps f r { s with slot := some v, calls := s.calls + 1 }
+  | .evalBoth :: r, s =>
+    match f with
+    | none => (.raised, { s with calls := s.calls + 1 })
+    | some v => execOps f r { s with slot := some v, tmp := some v, calls := s.calls + 1 }
+  | .evalItem :: r, s =>
+    match f with
+    | none => (.raised, { s with calls := s.calls + 1 })
+    | some v => execOps f r { s with has := true, slot := some v, calls := s.calls + 1 }
+  | .setHas :: r, s => execOps f r { s with has := true }
+  | .clearHas :: r, s => execOps f r { s with has := false }
+  | .storeTmp :: r, s => execOps f r { s with slot := s.tmp }
+  | .putTmp :: r, s => execOps f r { s with has := true, slot := s.tmp }
+  | .retSlot :: _, s => (.ret s.slot, s)
+  | .retItem :: _, s => if s.has then (.ret s.slot, s) else (.raised, s)
+  | .retTmp :: _, s => (.ret s.tmp, s)
+
+/-- one read through the cache method; `f`: what the formula does if it is called (`none`: raises) -/
+def runCache {V : Type} (p : CProg) (f : Option V) (s : CSt V) : CRes V × CSt V :=
+  let s0 : CSt V := { s with tmp := none }
+  match execOps f (if s.has != p.neg then p.thn else p.els) s0 with
+  | (.fell, s1) =>
+    (match execOps f p.aft s1 with
+     | (.fell, s2) => (.ret none, s2)
+     | r => r)
+  | r => r
+
+/-- what a read shows to the caller -/
+inductive Seen (V : Type) where
+  | value (v : Option V)
+  | error
+  deriving DecidableEq, Repr
+
+def CRes.seen {V : Type} : CRes V → Seen V
+  | .ret v => .value v
+  | .raised => .error
+  | .fell => .value none
+
+/-- consecutive reads of one element; the k-th read finds the formula doing `fs[k]` -/
+def reads {V : Type} (p : CProg) : List (Option V) → CSt V → List (Seen V)
+  | [], _ => []
+  | f :: rest, s => let r := runCache p f s; r.1.seen :: reads p rest r.2
+
+/-- the number of evaluations the reads cause -/
+def callsAfter {V : Type} (p : CProg) : List (Option V) → CSt V → Nat
+  | [], s => s.calls
+  | f :: rest, s => callsAfter p rest (runCache p f s).2
+
+/-- what modelx shows for the same reads (Exec: a failed evaluation leaves no value, the next read evaluates
+again; a value, once stored, is what every later read returns): `stored` is the value kept so far -/
+def specReads {V : Type} : List (Option V) → Option V → List (Seen V)
+  | [], _ => []
+  | _ :: rest, some v => .value (some v) :: specReads rest (some v)
+  | none :: rest, none => .error :: specReads rest none
+  | some v :: rest, none => .value (some v) :: specReads rest (some v)
+
+/-- evaluations modelx makes: one per read until the first that returns -/
+def specCalls {V : Type} : List (Option V) → Option V → Nat
+  | [], _ => 0
+  | _ :: _, some _ => 0
+  | none :: rest, none => 1 + specCalls rest none
+  | some _ :: _, none => 1
+
+/-- the protocol a cache method has to follow, in terms of single reads -/
+structure CacheOK (V : Type) (p : CProg) : Prop where
+  /-- a failed evaluation stores nothing -/
+  fail : ∀ s : CSt V, s.has = false →
+    (runCache p none s).1 = .raised ∧ (runCache p none s).2.has = false ∧
+      (runCache p none s).2.slot = s.slot ∧ (runCache p none s).2.calls = s.calls + 1
+  /-- a successful one is returned and stored -/
+  succ : ∀ (s : CSt V) (v : V), s.has = false →
+    (runCache p (some v) s).1 = .ret (some v) ∧ (runCache p (some v) s).2.has = true ∧
+      (runCache p (some v) s).2.slot = some v ∧ (runCache p (some v) s).2.calls = s.calls + 1
+  /-- a stored value is returned unchanged, without evaluating -/
+  hit : ∀ (s : CSt V) (f : Option V), s.has = true →
+    (runCache p f s).1 = .ret s.slot ∧ (runCache p f s).2.has = true ∧
+      (runCache p f s).2.slot = s.slot ∧ (runCache p f s).2.calls = s.calls
+
 end MxModel.Export
